@@ -499,7 +499,7 @@ func checkC13(c c13Case) string {
 func TestC13(t *testing.T) {
 	runWitnesses(t, "C13")
 	cliCases(t, "C13", "optimize")
-	ids := []string{"s0", "s1", "s2", "s3", "s4", "s5"}
+	ids := []string{"s0", "s1", "S0", "s3", "S1", "s5"} // s0/S0 and s1/S1 differ by case only: two identifiers
 	rids := []string{"r0", "r1", "r2"}
 	rapidCheck(t, "C13/graphs", tier(4000, 300000), func(rt *rapid.T) {
 		c := c13Case{}
